@@ -239,7 +239,7 @@ def run(res):
         a = retained(imp[1][1], kind == 2)
         b = retained(logm[1][1], kind == 2)
         if a != b:
-            nullstr = any(x[0] == 'str' and not x[1] for x in cl[3])
+            nullstr = any(x[0] == 'str' and not x[1] for x in cl[3])      # D5 (fixed): kept in the signature so that its return is named
             if nullstr:
                 null_string_hits += 1
             res.disagree('GDB mode and log mode disagree on what the print-out retains', dict(line=text, closure=cl, kind=kind), b, a,
